@@ -5,7 +5,9 @@
    table   : Gen.LockSites.lock_sites — every syntactic access to the tracked fields outside constructors, with the
              mutexes held (same base expression) at it, extracted from the Go AST on every run; lock_contracts — every
              call of a *_NeedsSubMuxLock function with whether the caller holds the lock.
-   scope   : guarded_fields below.  NOT covered (see the check's notes): channelInstance.algo / sequenceNumber (accessed
+   scope   : guarded_fields below; "SecureChannel.instances[]" is the backing array of the per-channel token lists, which
+             getInstancesBySecureChannelID hands out to the dispatcher WITHOUT the lock: it is race free only as long as
+             nobody writes such an array in place (today: fresh slice on expiry, append beyond the visible length).  NOT covered (see the check's notes): channelInstance.algo / sequenceNumber (accessed
              through methods whose callers hold the instance lock: needs inter-procedural contracts), SecureChannel.
              openingInstance / requestID (ordered by message causality, not by a lock), and every field not listed. *)
 From Coq Require Import Bool String List.
@@ -14,7 +16,8 @@ Import ListNotations.
 Open Scope string_scope.
 
 Definition guarded_fields : list string :=
-  [ "SecureChannel.instances"; "SecureChannel.activeInstance"; "SecureChannel.handlers"; "SecureChannel.chunks";
+  [ "SecureChannel.instances"; "SecureChannel.instances[]" (* the token lists themselves: they escape the lock *);
+    "SecureChannel.activeInstance"; "SecureChannel.handlers"; "SecureChannel.chunks";
     "Client.subs"; "Client.pendingAcks";
     "MonitoredItemService.Items"; "MonitoredItemService.Nodes"; "MonitoredItemService.Subs";
     "SubscriptionService.Subs"; "sessionBroker.s"; "channelBroker.s" ].
